@@ -93,13 +93,21 @@ class PubSubRun:
         self.w.start_manager()
         self.n_ops = 5 + ch.pick("cfg.nops", prof["ops"])
         # a logger monitor subscribed to ALL: never skipped, so its view of notices is complete
+        self.plain_monitor = False
         if self.prop in ("C14",) or ch.flag("cfg.monitor", 1, 2):
             mon = self.new_actor("mon")
             mon.open()
-            mon.handshake("v2v1", req_id=90, logger=True, name=b"monitor")
+            # usually a logger (never skipped).  In a quarter of the C14 runs there is no logger at all: the observer
+            # is an ordinary module subscribed to ALL whose connection the scheduler always reports writable
+            self.plain_monitor = self.prop == "C14" and not self.forced and ch.flag("cfg.plain_monitor", 1, 4)
+            mon.handshake("v2v1", req_id=90, logger=not self.plain_monitor, name=b"monitor")
             mon.subscribe(ALL)
+            mon.protected = True
+            if self.plain_monitor:
+                self.w.always_writable.add(mon.conn)
+                self.res.probes["no_logger_observer"] += 1
             self.monitor = mon
-            self.t(f"monitor connects id=90 logger sub ALL")
+            self.t(f"monitor connects id=90 {'logger' if not self.plain_monitor else 'plain module'} sub ALL")
             self.w.quiesce()
 
     def t(self, s):
@@ -127,7 +135,7 @@ class PubSubRun:
             rid = 0
         else:
             rid = ch.choose("con.badid", [101, 150, 200, -1, -32768, 32767, 99, 1])
-        logger = ch.flag("con.logger", 1, 6)
+        logger = ch.flag("con.logger", 1, 6) and not getattr(self, "plain_monitor", False)
         multi = ch.flag("con.multi", 1, 4)
         nm = ch.weighted("con.name", [(5, b""), (2, b"shared"), (2, b"n%d" % len(self.actors))])
         if proto == "v1":
@@ -159,8 +167,13 @@ class PubSubRun:
 
     def op_noise(self, a: Actor):
         ch = self.ch
-        k = ch.pick("noise.kind", 3)
-        if k == 0:
+        k = ch.pick("noise.kind", 4)
+        if k == 3:
+            # a repeated CONNECT_V2 on a connected module (must be ignored, never acknowledged)
+            a.send(C.MT_CONNECT_V2, C.pack_connect_v2(int(a.is_logger), 0, int(not a.unique), a.req_id, a.pid, a.mname),
+                   src=a.req_id)
+            self.t(f"{a.name} repeated CONNECT_V2")
+        elif k == 0:
             a.send(C.MT_MODULE_READY, C.pack_module_ready(7000 + len(a.sent)))
             self.t(f"{a.name} MODULE_READY")
         elif k == 1:
@@ -781,6 +794,15 @@ class PubSubRun:
                     res.add("C14", "notice_header", f"notice for tag {tag} embeds type/src/dest "
                                                     f"{(eh.msg_type, eh.src_mod_id, eh.dest_mod_id)} != original "
                                                     f"{(h.msg_type, h.src_mod_id, h.dest_mod_id)}")
+            if -1 in must:
+                # unknown dynamic id: let it stand for any one module named in an otherwise unexplained notice
+                spare = got - (must - Counter({-1: must[-1]})) - may
+                for mid2 in list(spare):
+                    while must.get(-1, 0) > 0 and spare[mid2] > 0:
+                        must[-1] -= 1
+                        spare[mid2] -= 1
+                        must[mid2] += 1
+                must += Counter()
             missing = must - got
             if missing:
                 mid = next(iter(missing))
@@ -868,9 +890,24 @@ def _oracle_c14_manager_originated(self, model, mon, sub_since):
             continue
         expected[rnd][(mt, st[2])] += 1
     for rnd in set(expected) | set(observed):
-        e, o = expected.get(rnd, Counter()), observed.get(rnd, Counter())
+        e, o = Counter(expected.get(rnd, Counter())), Counter(observed.get(rnd, Counter()))
         if e:
             res.probes["mgr_originated_notices_expected"] += sum(e.values())
+        # exact matches first; then a module whose dynamic id could not be learnt (its own acknowledgement was
+        # lost and no logger saw a copy) matches any id
+        common = e & o
+        e -= common
+        o -= common
+        for (t, mid), n in list(e.items()):
+            if mid == -1:
+                for (t2, mid2), n2 in list(o.items()):
+                    if t2 == t and n > 0 and n2 > 0:
+                        k = min(n, n2)
+                        e[(t, mid)] -= k
+                        o[(t2, mid2)] -= k
+                        n -= k
+        e += Counter()
+        o += Counter()
         if e == o:
             continue
         missing = e - o
